@@ -44,12 +44,19 @@ def main(tier):
     total += n; nontriv += nt; samples.append(gbehs[0][:200])
     chk.coverage['general_position_classes'] = n
     chk.coverage['general_position_points_judged'] = sum(x.get('judged', 0) for x in chk.last_results.values())
-    # (5) derived operands: seeded random 3-Boolean programs over the coincident bar/slab catalogue (CatDerived); the
-    #     operands of the later Booleans are Boolean RESULTS, whose halfedge order differs from a constructor's
-    behs, r = progfam.generate('GenC02derived.cfg', simulate=(250 if tier == 'quick' else 4000), timeout=3000)
-    n, nt = progfam.replay(chk, behs, 2, ['--eager'], OWNED, tag='derived')
-    total += n; nontriv += nt; samples.append(progfam.prog_text(json.loads(behs[0])))
-    chk.coverage['derived_operand_programs'] = n
+    # (5) derived operands: ALL chains of three Booleans over the four coincident bars/slabs of CatDerived (each box used
+    #     once; after the first Boolean one operand is always the newest RESULT, whose halfedge order is decided by the
+    #     Boolean and not by a constructor) - 2592 programs, BFS-exhaustive under ACTION_CONSTRAINT ChainAC
+    behs, r = progfam.generate('GenC02chain.cfg')
+    n, nt = progfam.replay(chk, behs, 2, ['--eager'], OWNED, tag='chain')
+    total += n; nontriv += nt; samples.append(progfam.prog_text(json.loads(behs[len(behs)//2])))
+    chk.coverage['exhaustive_derived_operand_chains'] = n
+    if tier == 'thorough':
+        # seeded random (non-chain, repeated operands) programs over the same catalogue
+        behs, r = progfam.generate('GenC02derived.cfg', simulate=4000, timeout=3000)
+        n, nt = progfam.replay(chk, behs, 2, ['--eager'], OWNED, tag='derived')
+        total += n; nontriv += nt
+        chk.coverage['derived_operand_programs'] = n
     if tier == 'thorough':
         behs, r = progfam.generate('GenC02triples.cfg', timeout=3000)
         n, nt = progfam.replay(chk, behs, 1, ['--eager'], OWNED, tag='triples', timeout=6000)
